@@ -248,10 +248,7 @@ pub fn execute(t: &Trace, stats: &mut Stats, record: bool) -> Outcome {
                     violation = Some(viol("error-swallowed", format!("{what}: the console writer failed with {k:?} but the call reported success")));
                     break;
                 }
-                if zeroes > 0 {
-                    violation = Some(viol("error-swallowed", format!("{what}: the console writer returned Ok(0) for non-empty text but write_all semantics reported success")));
-                    break;
-                }
+                // (an Ok(0) from the console is not an error; see c06.rs)
                 c += buf.len();
             }
             (OpResult::Err(k), Applied::Flush) => {
